@@ -6,7 +6,8 @@
    pruning without running again.  The global statement over whole programs is carried by the
    brute-force oracle of the check. *)
 From Coq Require Import List ZArith Bool Arith.
-From PV Require Import Model.Term Model.Subst Model.Unify Model.FD Model.State Proofs.FDProofs Proofs.FDPropProofs Model.Engine Proofs.UnifyProofs Proofs.DiseqProofs Proofs.MonoProofs Proofs.DenProofs Proofs.FDDen.
+From PV Require Import Model.Term Model.Subst Model.Unify Model.FD Model.State Proofs.FDProofs Proofs.FDPropProofs Model.Engine Proofs.UnifyProofs Proofs.DiseqProofs Proofs.MonoProofs Proofs.DenProofs Proofs.FDDen
+  Proofs.ElabAll Proofs.Acyc Proofs.AcycState Proofs.FDComp Proofs.FDEq Proofs.FDProg.
 Import ListNotations.
 Local Open Scope Z_scope.
 
@@ -82,6 +83,43 @@ Proof.
   pose proof (MstF_SolF th st st' S HM) as [A [B D]]. split; [apply HC, HM|]. split; [exact B|]. split; [exact D|]. split; [exact A|apply S].
 Qed.
 
+(* == on states with domains: unify, re-run the store, then hand the domain of every newly bound variable
+   over to the term it was bound to and remove it.  Every solution of the result solves the starting
+   state - including the domains of the variables that were just bound - and makes both sides equal. *)
+Theorem C16_eq_sound : forall st u v st', acyc (st_smap st) -> WFD st -> state_unify st u v = SOk st' ->
+  ext st st' /\ WFD st' /\ acyc (st_smap st') /\ forall th, MstF th st' -> MstF th st /\ app th u = app th v.
+Proof. exact state_unify_F. Qed.
+
+(* WHOLE PROGRAMS.  gdwf g : the domains written in the source goal are well-formed (sparse domains
+   sorted, as FiniteDomain::from builds them); dwf c : the same for an elaborated goal, which contains
+   no reification step.  DenF defs th c : the logical reading of c under th - conjunction, disjunction,
+   committed choice read as one of its branches, relation calls unfolded, == equality, != difference,
+   x in d membership, each FD / CLP(Z) constraint its integer relation, distinctfd pairwise
+   different.  For all relation definitions, goals, search strategies, fuel, and every answer
+   Solver::next delivers (before reification): every valuation that solves the answer state satisfies
+   the reading of the whole program and solves the state the program started from. *)
+Theorem C16_whole_program : forall defs,
+  (forall r d, find_def r defs = Some d -> gdwf (d_body d)) ->
+  forall k u n g st a rest u' th, dwf g -> GoodS st ->
+  next defs k u (start defs n g st) = NAnswer a rest u' -> MstF th a ->
+  DenF defs th g /\ MstF th st /\ GoodS a.
+Proof. exact fd_delivered_sound. Qed.
+(* goal construction keeps the domains of the source *)
+Theorem C16_elab_keeps_domains : forall defs,
+  (forall r d, find_def r defs = Some d -> gdwf (d_body d)) ->
+  forall f k rho g n, gdwf g -> dwf (fst (elab defs f k rho g n)).
+Proof. exact elab_dwf. Qed.
+Theorem C16_initial_good : forall n, GoodS (empty_state n).
+Proof. intros n. split; [constructor|apply WFD_empty]. Qed.
+(* readings of the atoms, for readers *)
+Example C16_reading_atoms : forall defs th x d u v w,
+  (DenF defs th (CDom x d) -> exists z, numv th x z /\ mem d z) /\
+  (DenF defs th (CPost (KTimes u v w)) -> exists a b r, numv th u a /\ numv th v b /\ numv th w r /\ (a * b = r)%Z).
+Proof.
+  intros defs th x d u v w. split; intros H; inversion H; subst; auto;
+    match goal with O : opaqueF _ |- _ => destruct O end.
+Qed.
+
 Check C16_plusfd_ground : forall rcs rc id st u v w a b r,
   num (wk (st_smap st) u) a -> num (wk (st_smap st) v) b -> num (wk (st_smap st) w) r ->
   run_constraint rcs rc id (KPlus u v w) st = if Z.eqb (a + b) r then SOk st else SFail.
@@ -96,3 +134,7 @@ Print Assumptions C16_post_domain_sound.
 Print Assumptions C16_rerun_sound.
 Print Assumptions C16_initial_wf.
 Print Assumptions C16_post_constraint_reading.
+Print Assumptions C16_eq_sound.
+Print Assumptions C16_whole_program.
+Print Assumptions C16_elab_keeps_domains.
+Print Assumptions C16_initial_good.
